@@ -258,7 +258,74 @@ def r5_config_from_backend(ctx):
     r4_unlock_from_stored(Relabel(ctx, 'C05.R5'))
 
 
+def r6_encryption_switch(ctx):
+    """Whether a new repository is encrypted is decided by one question only: is the `encryption` section of the init
+    settings None?  Every other value - including an empty section, i.e. "all defaults" - yields an encrypted
+    repository.  A truthiness test instead of the None test stores plaintext for a user who asked for encryption."""
+    from ..cfg import cfg_of, deref_at
+
+    corpus = ctx.corpus
+    mk = corpus.method(repo_cls(corpus), '_make_config')
+    if mk is None:
+        raise AnalysisError('C05.R6: Repository._make_config missing')
+    ctx.analysed(mk)
+    cfg = cfg_of(mk.node)
+    # statements that put the 'encryption' section into the config
+    puts = []
+    for n in walk_local(mk.node):
+        if isinstance(n, ast.Assign) and any(isinstance(t, ast.Subscript) and isinstance(t.slice, ast.Constant) and t.slice.value == 'encryption' for t in n.targets):
+            puts.append(n)
+        elif isinstance(n, ast.Dict) and any(isinstance(k, ast.Constant) and k.value == 'encryption' for k in n.keys):
+            st = n
+            while st is not None and not isinstance(st, ast.stmt):
+                st = getattr(st, '_parent', None)
+            if st is not None:
+                puts.append(st)
+    ctx.floor('C05.R6', "statement adding the 'encryption' section in _make_config", len(puts))
+    for p_ in puts:
+        guards = []
+        cur = p_
+        while cur is not None and cur is not mk.node:
+            par = getattr(cur, '_parent', None)
+            if isinstance(par, ast.If):
+                guards.append((par, any(cur is x for x in par.body)))
+            cur = par
+        ok = True
+        why = ''
+        for g, in_body in guards:
+            t, neg = g.test, False
+            while isinstance(t, ast.UnaryOp) and isinstance(t.op, ast.Not):
+                t, neg = t.operand, not neg
+            about_enc = any(isinstance(c, ast.Constant) and c.value == 'encryption' for c in ast.walk(t))
+            if not about_enc:
+                for nm in ast.walk(t):
+                    if isinstance(nm, ast.Name):
+                        d = deref_at(mk.node, nm)
+                        if d is not nm and any(isinstance(c, ast.Constant) and c.value == 'encryption' for c in ast.walk(d)):
+                            about_enc = True
+            if not about_enc:
+                continue
+            none_test = isinstance(t, ast.Compare) and len(t.ops) == 1 and isinstance(t.ops[0], (ast.Is, ast.IsNot)) and isinstance(t.comparators[0], ast.Constant) and t.comparators[0].value is None
+            if not none_test:
+                ok = False
+                why = f'`{src(g.test, 60)}` is not a None test'
+            else:
+                enc_when_true = isinstance(t.ops[0], ast.IsNot) != neg
+                if enc_when_true != in_body:
+                    ok = False
+                    why = f'`{src(g.test, 60)}` has the wrong polarity'
+        ctx.check(
+            ok,
+            'C05.R6',
+            f'{func_label(mk)}|encrypted-unless-section-is-none',
+            loc(mk, p_),
+            "_make_config: the 'encryption' section is written unless the settings say `encryption: None` (tests on it are None tests)",
+            f"_make_config: whether the repository is encrypted depends on {why}: an empty `encryption` section (encryption with all defaults) yields an UNENCRYPTED repository - chunks, names and snapshot data are stored in plaintext although a password was given",
+        )
+
+
 def run(ctx):
+    r6_encryption_switch(ctx)
     r5_config_from_backend(ctx)
     r4_log_channel(ctx)
     r1_flows(ctx)
